@@ -4,11 +4,21 @@ import (
 	"io"
 	"os"
 	"syscall"
+	"time"
 
 	"golang.org/x/sys/unix"
 
 	"github.com/criyle/go-sandbox/zzverif/sym"
 )
+
+type memInfo struct{ size int64 }
+
+func (m memInfo) Name() string       { return "f" }
+func (m memInfo) Size() int64        { return m.size }
+func (m memInfo) Mode() os.FileMode  { return 0644 }
+func (m memInfo) ModTime() time.Time { return time.Time{} }
+func (m memInfo) IsDir() bool        { return false }
+func (m memInfo) Sys() any           { return nil }
 
 type srcReader struct {
 	data []byte
@@ -39,7 +49,39 @@ func VerifC13_Memfd() {
 		closes      = 0
 		writesAfter = 0
 	)
-	src := &srcReader{data: sym.Bytes("exe", 3)}
+	data := sym.Bytes("exe", 3)
+	src := &srcReader{data: data}
+	// the reader is a plain io.Reader, or an *os.File on a regular file positioned anywhere
+	// (the bytes it supplies are those from its position to the end)
+	var reader io.Reader = src
+	var srcFile *os.File
+	srcPos := 0
+	if sym.Bool("reader_is_file") {
+		srcFile = new(os.File)
+		srcPos = sym.Choose("file_position", 4)
+		src.off = srcPos
+		reader = srcFile
+		sym.Intercept("(*os.File).Read", func(f *os.File, p []byte) (int, error) {
+			sym.Assert(f == srcFile, "model: read of an unknown file")
+			return src.Read(p)
+		})
+		sym.Intercept("(*os.File).Stat", func(f *os.File) (os.FileInfo, error) {
+			if f == srcFile {
+				return memInfo{size: int64(len(data))}, nil
+			}
+			return memInfo{size: int64(len(content))}, nil
+		})
+		sym.Intercept("(*os.File).Truncate", func(f *os.File, size int64) error {
+			sym.Assert(f != srcFile, "the source file must not be modified")
+			// ftruncate on the memfd: shrink or zero-extend
+			for int64(len(content)) < size {
+				content = append(content, 0)
+			}
+			content = content[:size]
+			return nil
+		})
+	}
+	supplied := data[srcPos:]
 	failAt := sym.Choose("fail_at", 5) // 0 none, 1 create, 2 copy, 3 seal, 4 seek
 	files := map[*os.File]bool{}
 	sym.Intercept("golang.org/x/sys/unix.MemfdCreate", func(name string, flags int) (int, error) {
@@ -57,20 +99,28 @@ func VerifC13_Memfd() {
 	sym.Intercept("(*os.File).Fd", func(f *os.File) uintptr { return fd })
 	sym.Intercept("(*os.File).ReadFrom", func(f *os.File, r io.Reader) (int64, error) {
 		buf := make([]byte, 2)
+		wpos := 0 // the memfd's file position (nothing was written before the copy)
 		for {
 			n, err := r.Read(buf)
 			if seals&unix.F_SEAL_WRITE != 0 && n > 0 {
 				writesAfter++
 			}
-			content = append(content, buf[:n]...)
+			for _, b := range buf[:n] { // write(2) at the file position: overwrite, extend at the end
+				if wpos < len(content) {
+					content[wpos] = b
+				} else {
+					content = append(content, b)
+				}
+				wpos++
+			}
+			if failAt == 2 {
+				return int64(len(content)), syscall.EIO
+			}
 			if err == io.EOF {
 				break
 			}
 			if err != nil {
 				return int64(len(content)), err
-			}
-			if failAt == 2 {
-				return int64(len(content)), syscall.EIO
 			}
 		}
 		copied = true
@@ -99,7 +149,7 @@ func VerifC13_Memfd() {
 	sym.Intercept("(*os.File).Close", func(f *os.File) error { closes++; return nil })
 	sym.Intercept("golang.org/x/sys/unix.Close", func(d int) error { closes++; return nil })
 
-	f, err := DupToMemfd("prog", src)
+	f, err := DupToMemfd("prog", reader)
 	if failAt != 0 {
 		sym.Reach("failure")
 		sym.Assert(err != nil && f == nil, "a failing step must be reported and no file returned")
@@ -111,10 +161,10 @@ func VerifC13_Memfd() {
 	sym.Reach("success")
 	sym.Assert(err == nil && f != nil, "all steps succeeded: a file must be returned")
 	sym.Assert(createFlags&unix.MFD_CLOEXEC != 0 && createFlags&unix.MFD_ALLOW_SEALING != 0, "memfd must be created close-on-exec and sealable")
-	sym.Assert(len(content) == len(src.data), "the memfd must contain exactly the supplied bytes")
-	for i := range src.data {
+	sym.Assert(len(content) == len(supplied), "the memfd must contain exactly the supplied bytes")
+	for i := range supplied {
 		if i < len(content) {
-			sym.Assert(content[i] == src.data[i], "content differs from the supplied bytes")
+			sym.Assert(content[i] == supplied[i], "content differs from the supplied bytes")
 		}
 	}
 	const want = unix.F_SEAL_SEAL | unix.F_SEAL_SHRINK | unix.F_SEAL_GROW | unix.F_SEAL_WRITE
